@@ -701,9 +701,10 @@ def replay_file(path):
     mod = __import__(f"vf.props.{prop.lower()}", fromlist=["x"])
     ctx = Ctx(prop, "replay", "quick", 0)
     try:
-        if str(rep.get("kind", "")).endswith(":python_-O"):
-            # found in an interpreter started with -O: replay it there
-            run_cases_optimized(ctx, prop, [{"sub": rep["sub"], "case": rep["case"]}])
+        if ":python_-" in str(rep.get("kind", "")):
+            # found in an interpreter started with a flag (-O, -bb): replay it there
+            run_cases_optimized(ctx, prop, [{"sub": rep["sub"], "case": rep["case"]}],
+                                flag="-" + str(rep["kind"]).rsplit(":python_-", 1)[1])
             if ctx.violations:
                 v0 = ctx.violations[0]
                 raise Violation(prop, v0["sub"], v0["kind"], v0["case"], v0["message"], v0.get("key"))
@@ -722,9 +723,9 @@ def replay_file(path):
 # --------------------------------------------------------------------------------------
 # the same oracle cases in an interpreter started with -O
 # --------------------------------------------------------------------------------------
-def run_cases_optimized(ctx, prop, jobs):
-    """jobs: [{"sub", "case"}].  Evaluates them with `python -O -m vf.optrun` (asserts stripped) and merges the
-    violations, their kind suffixed with ':python_-O'.  Results must not depend on the interpreter's optimisation
+def run_cases_optimized(ctx, prop, jobs, flag="-O"):
+    """jobs: [{"sub", "case"}].  Evaluates them with `python <flag> -m vf.optrun` (-O: asserts stripped; -bb: comparing
+    bytes with str is an error) and merges the violations, their kind suffixed with ':python_<flag>'.  Results must not depend on the interpreter's optimisation
     flag: a library that validates with `assert` silently stops validating there."""
     import subprocess
     import tempfile
@@ -735,21 +736,21 @@ def run_cases_optimized(ctx, prop, jobs):
         env = dict(os.environ, PYTHONHASHSEED="0", PYTHONDONTWRITEBYTECODE="1",
                    PYTHONPATH=VERIF_DIR + os.pathsep + os.environ.get("PYTHONPATH", ""))
         env.pop("PYTHONOPTIMIZE", None)
-        r = subprocess.run([sys.executable, "-O", "-m", "vf.optrun", prop, path], cwd=VERIF_DIR, env=env,
+        r = subprocess.run([sys.executable, flag, "-m", "vf.optrun", prop, path], cwd=VERIF_DIR, env=env,
                            capture_output=True, text=True)
         if r.returncode != 0:
-            raise HarnessError(f"python -O runner failed: {r.stderr[-1500:]}")
+            raise HarnessError(f"python {flag} runner failed: {r.stderr[-1500:]}")
         res = json.loads(r.stdout.strip().splitlines()[-1])
-        if res.get("optimize", 0) < 1:
+        if flag == "-O" and res.get("optimize", 0) < 1:
             raise HarnessError("python -O runner did not run optimised")
     finally:
         os.unlink(path)
     ctx.ev(int(res["evaluations"]))
-    ctx.label("python_-O:cases", len(jobs))
+    ctx.label(f"python_{flag}:cases", len(jobs))
     for v in res["violations"]:
         v = dict(v)
-        v["kind"] = v["kind"] + ":python_-O"
-        v["message"] = "in an interpreter started with -O: " + v["message"]
+        v["kind"] = v["kind"] + f":python_{flag}"
+        v["message"] = f"in an interpreter started with {flag}: " + v["message"]
         if isinstance(v.get("key"), dict) and "kind" in v["key"]:
             v["key"] = dict(v["key"], kind=v["kind"])
         ctx.violations.append(v)
